@@ -67,6 +67,12 @@ def pool_codes():
         if callable(f) and hasattr(f, "__code__") and f.__code__ not in codes and not name.startswith("__") \
                 and name not in ("used", "free"):
             codes.append(f.__code__)
+    # properties other than the two the harness itself reads (a lazily created lock, a computed size ...)
+    for name, fn in vars(P).items():
+        if isinstance(fn, property) and name not in ("used", "free"):
+            for acc in (fn.fget, fn.fset):
+                if acc is not None and hasattr(acc, "__code__") and acc.__code__ not in codes:
+                    codes.append(acc.__code__)
     for name, fn in vars(base.PooledClient).items():
         if callable(fn) and hasattr(fn, "__code__") and not name.startswith("__init__"):
             codes.append(fn.__code__)
@@ -186,6 +192,12 @@ class Monitor:
 
 class CreatorBoom(Exception):
     pass
+
+
+class _NoMon:
+    viol = ()
+    inv_evals = 0
+    expected_exhaustions = 0
 
 
 POOL_OPS = ["get_release", "get_destroy", "gar_ok", "gar_raise_destroy", "gar_raise_release", "clear"]
@@ -313,9 +325,11 @@ CLIENT_OPS = ["set", "get", "fail_recv", "illegal_key", "quit", "close"]
 
 
 def run_client_case(case, forced, mode):
-    """case = ("client", programs, max_pool_size)"""
+    """case = ("client", programs, max_pool_size[, use_pooling value]) - with a 4th element the PooledClient is the one a
+    HashClient(use_pooling=<value>) builds for its single server, and the operations go through the HashClient"""
     import pymemcache.client.base as base
-    _, programs, max_size = case
+    _, programs, max_size = case[:3]
+    via_hash = case[3] if len(case) > 3 else None
     sch = S.Sched(len(programs), forced)
     from vk import fakenet as _fk
     # replies longer than 16 bytes (the get replies) arrive in two pieces, cut inside the value: a scheduling point lies
@@ -352,9 +366,23 @@ def run_client_case(case, forced, mode):
     for name in ("set", "get", "get_many", "delete", "quit", "gets", "add", "incr"):
         setattr(Guarded, name, guard(name))
 
-    pc = base.PooledClient(("mc1", 11211), socket_module=net, max_pool_size=max_size, default_noreply=False,
-                           lock_generator=lambda: S.SchedLock(sch, "pool"))
-    pc.client_class = Guarded
+    if via_hash is None:
+        pc = base.PooledClient(("mc1", 11211), socket_module=net, max_pool_size=max_size, default_noreply=False,
+                               lock_generator=lambda: S.SchedLock(sch, "pool"))
+        pc.client_class = Guarded
+        front = pc
+    else:
+        import pymemcache.client.hash as hashmod
+        class GuardedHash(hashmod.HashClient):
+            client_class = Guarded
+        front = GuardedHash([("mc1", 11211)], use_pooling=via_hash, socket_module=net, max_pool_size=max_size,
+                            default_noreply=False, lock_generator=lambda: S.SchedLock(sch, "pool"))
+        pc = list(front.clients.values())[0]
+        if not hasattr(pc, "client_pool"):
+            # pooling was asked for (a truthy flag) but the per-server client has no pool: every thread shares its one socket
+            sch2 = S.Sched(1, {})
+            return sch2, [("pooling-requested-but-the-per-server-client-has-no-pool",
+                           "HashClient(use_pooling=%r) built a %s for its server" % (via_hash, type(pc).__name__))], _NoMon(), True
     mon = Monitor(sch, pc.client_pool, max_size)
     net.on_call = lambda typ, sock: (sch.point(("sock", typ)) if (sch.active and sch.me() is not None) else None)
     fail_state = {"armed": set()}
@@ -366,21 +394,21 @@ def run_client_case(case, forced, mode):
                 net.begin_call((idx, j))
                 try:
                     if op == "set":
-                        r = pc.set("k%d" % idx, b"v%d" % idx)
+                        r = front.set("k%d" % idx, b"v%d" % idx)
                     elif op == "get":
-                        r = pc.get("g%d" % idx)
+                        r = front.get("g%d" % idx)
                     elif op == "fail_recv":
                         net.faults[((idx, j), "recv")] = "reset"
-                        r = pc.get("h1")
+                        r = front.get("h1")
                     elif op == "illegal_key":
-                        r = pc.get("bad key")
+                        r = front.get("bad key")
                     elif op == "quit":
-                        r = pc.quit()
+                        r = front.quit()
                     elif op == "close":
                         # connections that pooled clients hold (client.sock assigned) at the moment this close() begins
                         close_marks.append({id(getattr(c_.sock, "raw", c_.sock))
                                             for c_ in tuple(pc.client_pool.used) + tuple(pc.client_pool.free) if c_.sock is not None})
-                        r = pc.close()
+                        r = front.close()
                     outcomes.append((idx, op, "ret", r))
                 except S.SchedAbort:
                     raise
@@ -655,6 +683,11 @@ def cases(tier):
         for other in ("get_release", "gar_raise_destroy", "clear", "get_creator_fails"):
             out.append((("pool", (("get_release", "adv_expire", "get_creator_fails"), (other,)), ms, 5), 1))
         out.append((("pool", (("get_release", "adv_expire", "get_creator_fails", "get_release"),), ms, 5), 0))
+    # the PooledClient a HashClient(use_pooling=<truthy>) builds for its server, driven through the HashClient
+    for ms, flag in ((1, True), (2, 1), (None, 1)):
+        # (no failing operations here: a failure makes the HashClient skip the server for a while, which is C13's subject)
+        for a, b in (("set", "set"), ("get", "set"), ("get", "get")):
+            out.append((("client", ((a,), (b,)), ms, flag), 0))
     # (ii) PooledClient
     for ms in (1, 2, None):
         for a in CLIENT_OPS:
@@ -694,7 +727,7 @@ def shard(tier, seed, idx, n):
         budget = 700 if all(len(p) == 1 for p in case[1]) else 450
         if len(entry) > 2:
             budget = entry[2]
-        elif tier == "thorough":
+        elif tier == "thorough" and not (case[0] == "client" and len(case) > 3):
             P = P + 1
             single_ops = all(len(p) == 1 for p in case[1])
             # two single-operation threads: exhaustive within the bound; longer programs: a large shuffled-DFS budget
